@@ -17,7 +17,7 @@ MANIFEST = dict(
     technique='Coq proof (loop invariants with fuel, bit-level rewriting, integer arithmetic over N/Z, finite sweeps by vm_compute) about '
               'algorithm-faithful hand models of the rendered C, C++ and Python support code; extracted-model vs. implementation '
               'correspondence on exhaustive small-parameter sweeps; independent big-integer oracle as falsifier',
-    text='51 theorems + 5 examples in coq/theories/Properties/C14.v, each for EVERY offset, length, buffer, declared size and value (no '
+    text='23 theorems (conjunctions of 75 lemmas of Prims/*Thm.v, each named in the proof) + 5 examples in coq/theories/Properties/C14.v, each for EVERY offset, length, buffer, declared size and value (no '
          'bound; preconditions of the code\'s contract as guards). C (both target_endianness renderings): nunavutCopyBits copies '
          'exactly the addressed bits, leaves every other bit untouched, no out-of-range access (memmove path and bit loop); '
          'SaturateBufferFragmentBitLength; GetBits zero-extends and zero-pads; SetUxx/SetIxx/SetBit report a too-small buffer iff '
@@ -31,7 +31,12 @@ MANIFEST = dict(
          '"bits at or after the cursor are zero"; add_unaligned_bytes/unsigned/signed/bit/array_of_bits, add_aligned_bytes/unsigned/'
          'signed/u8..u64/i8..i64/array_of_bits, pad_to_alignment append exactly the value\'s bits; Deserializer '
          'fetch_(un)aligned_bytes/unsigned/signed/bit/array_of_bits, fetch_aligned_u8..i64 return the bits at the cursor of the '
-         'zero-extended buffer; fork_bytes of both works on a window of the same bytes. Tie: extracted models vs. the headers/module rendered by nnvg from /repo (C any/little/'
+         'zero-extended buffer; fork_bytes of both works on a window of the same bytes. Round 2: every remaining public member of the three '
+         'modules (C SetIxx/SetBit as unsigned stores, float set/get as integer set/get of the bit pattern composed with f16 pack/unpack; '
+         'C++ setZeros(), copyTo(dst), at_offset, set_offset, offset_bytes(_ceil), offset_misalignment, align_offset_to, saturate; Python '
+         'Serializer.buffer, skip_bits, arrays of standard primitives incl. the NotImplementedError of the big-endian classes, '
+         'ZeroExtendingBuffer get_byte/get_unsigned_slice/fork_bytes) has a model, a theorem and a correspondence stratum; coverage '
+         'table in design_notes/C14.md. Tie: extracted models vs. the headers/module rendered by nnvg from /repo (C any/little/'
          'big x asserts on/off, gcc + clang ASan/UBSan; C++14 (17, 20 thorough) x asserts, g++ + clang++ ASan; Python with NumPy) on the '
          'same calls / operation sequences, return values and full buffers with guard bytes compared; thorough: C vs C++ vs NumPy '
          'natively on all 2^32 binary32 inputs.',
@@ -42,10 +47,11 @@ MANIFEST = dict(
          'x.view(uint8), struct.pack/unpack "<e|f|d" by their documented semantics; extraction (ExtrOcamlBasic only) + '
          'ocaml/c14_driver.ml; the drivers tools/harness/c14_*; gcc 12 / clang 14 sanitizers; CPython 3.12 / NumPy 2.5.3. Rounding: C/C++ '
          'pack ties away from zero, Python (struct) ties to even - both allowed by C14 (nearest or adjacent); the difference is C03\'s '
-         'F-F16-TIE, not a C14 finding. Not covered: big-endian hosts; overlapping src/dst in copy (documented UB); Python arrays of '
-         'standard primitives (x.view(uint8)) and float add/fetch reduce to the byte methods through NumPy/struct semantics that are '
-         'assumed, not proved; fetch_aligned_array_of_bits and C/C++ Set/GetF16/32/64 wrappers are modelled and tied by correspondence '
-         'but have no separate theorem; behaviour of the Python Serializer outside its '
+         'F-F16-TIE, not a C14 finding. Not covered: big-endian hosts (the Python big-endian classes are instantiated directly: their '
+         'array methods raise NotImplementedError, everything else is inherited); overlapping src/dst in copy (documented UB); Python '
+         'float add/fetch reduce to the byte methods through struct semantics that are assumed, not proved (x.view(uint8)/frombuffer = '
+         'little-endian image likewise); fetch_aligned_array_of_bits has no separate theorem (same slice + unpackbits lemmas as the '
+         'unaligned one); behaviour of the Python Serializer outside its '
          'capacity contract (a 1-byte aligned write past the end is silently dropped by NumPy broadcasting - observed, outside the '
          'documented contract); cetl flavour (cannot be compiled offline).',
     design='§5 C14')
@@ -174,6 +180,12 @@ def oracle(line: str) -> typing.Optional[str]:
         return None if off + bits > M64 or size * 8 > M64 else '%d %d' % (max(0, 8 * size - off - bits), off + bits)
     if c == 'xob':
         return str(int(t[2]) // 8)
+    if c == 'xmis':
+        off, n = int(t[1]), int(t[2])
+        return None if n == 0 else '%d %d %d' % (off % n, int(off % n == 0), int(off % 8 == 0))
+    if c == 'xso':
+        size, bits = int(t[1]), int(t[3])
+        return None if size * 8 > M64 else '%d %d' % (max(0, 8 * size - bits), bits)
     if c == 'pyser':
         return oracle_pyser(int(t[1]), t[2].split(';') if len(t) > 2 else [])
     if c == 'pydes':
@@ -340,7 +352,8 @@ def oracle_pyser(n: int, ops: typing.List[str]) -> typing.Optional[str]:
             return None
     if stack:
         return None
-    return '%d %s' % (cur, hx(bits_int(mem).to_bytes(n + 1, 'little')))
+    whole = bits_int(mem).to_bytes(n + 1, 'little')
+    return '%d %s %s' % (cur, hx(whole), hx(whole[:(cur + 7) // 8]))
 
 
 def oracle_pydes(buf: bytes, ops: typing.List[str]) -> typing.Optional[str]:
@@ -560,7 +573,7 @@ def nontrivial(line: str) -> typing.Optional[str]:
         return 'sat'
     if c == 'zeb':
         return 'zeb'
-    if c in ('xza', 'xcpa', 'xat', 'xob'):
+    if c in ('xza', 'xcpa', 'xat', 'xob', 'xmis', 'xso'):
         return c
     if c in ('pyser', 'pydes', 'pyserbe', 'pydesbe'):
         ops = t[2] if len(t) > 2 else ''
@@ -749,6 +762,9 @@ def gen_cpp_cases(rng, tier: str) -> typing.List[str]:
             L.append('xob %d %d' % (size, off))
             for bits in (0, 1, 7, 8, 9, 8 * size, 8 * size + 1, 100):
                 L.append('xat %d %d %d' % (size, off, bits))
+                L.append('xso %d %d %d' % (size, off, bits))
+            for nb in (1, 8, 16, 32, 64):
+                L.append('xmis %d %d' % (off, nb))
     for ssize in range(5):
         for soff in range(8 * ssize + 10):
             n = max(0, 8 * ssize - soff)
@@ -1230,7 +1246,7 @@ def main(chk: core.Check, replay: typing.Optional[str] = None) -> int:
     grid_targets = {k: v for k, v in all_targets.items() if k in ('c_any_noasserts', 'c_little_asserts_asan', 'cpp_cpp14_noasserts')} or all_targets
     cpp_noassert = {k: v for k, v in cpp_targets.items() if 'noasserts' in k}
     is_x = lambda l: l[0] == 'x'
-    is_xsub = lambda l: l.startswith(('xsub', 'xat', 'xob'))
+    is_xsub = lambda l: l.startswith(('xsub', 'xat', 'xob', 'xmis', 'xso'))
     jobs = []
     for fam_targets, fam_lines, mfa in ((all_targets, [l for l in lines if not l.startswith('f16p ') and not is_x(l) and not is_py(l)], None),
                                         (py_targets, [l for l in lines if is_py(l)], None),
